@@ -17,7 +17,7 @@ from values import *      # noqa
 import chars as C
 
 C06_CLAUSES = ('placement', 'tier')
-C01_CLAUSES = ('non_ascii_output', 'not_wellformed', 'own_parser_rejects', 'rerender_changes')
+C01_CLAUSES = ('non_ascii_output', 'not_wellformed', 'own_parser_rejects', 'rerender_changes', 'cli_output', 'check_rejects')
 SMART = ['Standard', 'StandardNoContext', 'StandardContext', 'Calver', 'CalverNoContext', 'CalverContext']
 
 
@@ -39,13 +39,19 @@ def run(pid, title, clauses):
                      variables='every variable a schema mentions has symbolic presence; numbers in [0,99] (presets [0,9]); text variables of 1-2 (thorough up to 4, hash 9) chars over ASCII + %d non-ASCII representatives; timestamps any second 1970-2199' % len(C.R),
                      formats=['semver', 'pep440'], smart_presets=SMART)
     ck.outside = ['custom JSON variables (Var::Custom)', 'schemas outside the menu, user RON text', 'numbers above 99 in rendering (number range faithfulness is C07)',
-                  'the CLI wrapper (clap, stdout) and --output-prefix/--output-template handling']
+                  'clap argument parsing and the write to stdout (C01 executes OutputFormatter::format_output with a symbolic prefix and run_check_command); --output-template']
     ck.assumptions = ['python models of std / regex / chrono format (listed in models_used)', 'reference renderer transcribed from the property statement']
     deadline = time.time() + (900 if quick else 7200)
     ex = engine.explore('c06', 'path', args, jobs=ck.jobs, deadline=deadline)
     cands = ck.absorb('render(schema, vars): placement rules + well-formed output', ex, bounds=dict(args=len(args)), expect_tags=['rendered', 'wellformed', 'rerender_fixed_point'])
     ex2 = engine.explore('c06', 'path_tier', SMART, jobs=ck.jobs, deadline=time.time() + 600)
     cands += ck.absorb('smart presets choose the tier from dirty/distance/pre_release/post only', ex2, expect_tags=['tier0', 'tier1', 'tier2', 'tier3'])
+    if pid == 'C01':
+        # CLI layer: OutputFormatter (prefix) and the check command, on the preset schemas and every third menu schema
+        cli = [dict(a, prefix_len=(None, 0, 1, 2)[i % 4]) for i, a in enumerate(args) if a.get('preset') or i % 3 == 0]
+        ex3 = engine.explore('c06', 'path_cli', cli, jobs=ck.jobs, deadline=time.time() + (600 if quick else 3600))
+        cands += ck.absorb('OutputFormatter::format_output = prefix ++ rendering (one line); run_check_command accepts it as normal', ex3,
+                           bounds=dict(args=len(cli), prefix='absent or 0..2 characters over the alphabet'), expect_tags=['cli_prefix_exact', 'check_accepts_as_normal'])
     seen = set()
     for v in cands:
         if v['clause'] not in clauses and v['clause'] != 'panic':
@@ -75,6 +81,15 @@ def confirm(v):
     desc = 'schema=%s fmt=%s vars=%s native=%r :: %s' % (v.get('schema_text'), v['fmt'], v['vars'], out, v['detail'])
     if v['clause'] == 'placement':
         return out != v.get('expected'), desc
+    if v['clause'] == 'cli_output':
+        pf = v.get('prefix')
+        r2 = native.driver().call(op='format_output', schema=v['schema'], vars=v['vars'], fmt=v['fmt'], prefix=pf)
+        got = native.uncps(r2['out']) if r2.get('ok') else None
+        want = ''.join(map(chr, pf or [])) + out
+        return got != want or '\n' in out, desc + ' format_output=%r' % (got,)
+    if v['clause'] == 'check_rejects':
+        r2 = native.driver().call(op='check', version=r['out'], fmt=v['fmt'])
+        return (not r2.get('ok')) or 'normalized' in native.uncps(r2['out']), desc + ' check=%r' % (native.uncps(r2['out']) if r2.get('ok') else r2.get('err'),)
     import relang
     import re
     if v['clause'] == 'non_ascii_output':
